@@ -95,6 +95,8 @@ class Run:
         self.files = {}
         self.pool = {}
         self.link_handles = set()
+        self.keep = []
+        M.reset_uids()
         self.stale_writers = {}
         self.ops = []
         self.trace = []
@@ -140,6 +142,7 @@ class Run:
         self.pool.clear()
         self.link_handles.clear()
         self.stale_writers.clear()
+        del self.keep[:]
 
     # -------------------------------------------------------------------- handles
     CONT = {"block": "blocks", "group": "groups", "array": "data_arrays", "frame": "data_frames",
@@ -147,7 +150,8 @@ class Run:
             "prop": "props", "feature": "features"}
 
     def remember(self, m, h, via_link=False):
-        self.pool.setdefault(id(m), []).append(h)
+        self.pool.setdefault(m.uid, []).append(h)
+        self.keep.append(h)          # handles stay alive for the whole run: their id() is then unique
         if via_link:
             self.link_handles.add(id(h))
 
@@ -161,9 +165,9 @@ class Run:
             if owner is not None and emptied:
                 # such handles show a stale view (F14a) but writes through them re-resolve the
                 # group and must still take effect: they are kept for write-only use
-                hs = self.pool.pop(id(owner), None)
+                hs = self.pool.pop(owner.uid, None)
                 if hs:
-                    self.stale_writers.setdefault(id(owner), []).extend(hs)
+                    self.stale_writers.setdefault(owner.uid, []).extend(hs)
             self.stats["masked:stale_handle"] += 1
 
     def siblings(self, m):
@@ -213,7 +217,7 @@ class Run:
             return arr.dimensions[m.index - 1]
         via = via % 8
         if via == 4:
-            hs = self.pool.get(id(m))
+            hs = self.pool.get(m.uid)
             if hs:
                 self.stats["handle_pooled"] += 1
                 return hs[(self.step + len(hs)) % len(hs)]
